@@ -476,6 +476,7 @@ impl CMach {
                     if before - after != r {
                         ctx.violate("gc-return", format!("oxidd_*_manager_gc returned {} but {} nodes disappeared", r, before - after));
                     }
+                    self.liveness(after, model, ctx);
                 }
                 AddVars { k } => {
                     if n + *k as u32 > 8 || self.low_capacity(2 * n as usize + *k as usize + 2) {
@@ -680,6 +681,8 @@ impl CMach {
                 SubstDrop { s } if self.q.is_some() => {
                     if let Some(old) = self.substs[*s as usize].take() {
                         (self.q.unwrap().sfree)(old);
+                        model.substs[*s as usize] = None;
+                        self.collect_and_check(model, ctx);
                     }
                     model.substs[*s as usize] = None;
                 }
@@ -889,7 +892,51 @@ impl CMach {
         }
     }
 
+    /// exact liveness after a collection: what is left is the union of the diagrams of the
+    /// handles the client holds (registers, replacement functions inside substitutions)
+    fn liveness(&self, after: usize, model: &Model, ctx: &mut Ctx) {
+        let mut roots: Vec<&Den> = vec![];
+        let mut all_valid = true;
+        for r in 0..NREGS {
+            match (self.regs[r], model.regs[r].as_ref()) {
+                (Some(h), Some(d)) if !h.p.is_null() => roots.push(d),
+                (None, None) => {}
+                (Some(h), None) if h.p.is_null() => {} // an invalid handle holds nothing
+                _ => all_valid = false,
+            }
+        }
+        for sl in model.substs.iter().flatten() {
+            for (_, d) in sl {
+                roots.push(d);
+            }
+        }
+        if all_valid {
+            let exp = model.expected_inner_nodes(&roots);
+            ctx.stats.bump("probe.gc_exact_liveness");
+            if after != exp {
+                ctx.violate("gc-liveness", format!("after gc the manager holds {} inner nodes, the {} handles held by the client need exactly {}", after, roots.len(), exp));
+            }
+        }
+    }
+
+    /// collect, then check liveness (after operations that release references held on the
+    /// client's behalf, and before the tear-down releases the client's own)
+    fn collect_and_check(&self, model: &Model, ctx: &mut Ctx) {
+        let after = unsafe {
+            (self.api.gc)(self.m);
+            (self.api.ninner)(self.m)
+        };
+        self.liveness(after, model, ctx);
+    }
+
     fn finish(&mut self, model: &mut Model, ctx: &mut Ctx) {
+        if ctx.violations.is_empty() {
+            self.collect_and_check(model, ctx);
+            if !ctx.violations.is_empty() {
+                // the reference counts are off: releasing the handles now could free the manager twice
+                return;
+            }
+        }
         for r in 0..NREGS as u8 {
             self.unref_reg(r);
             model.regs[r as usize] = None;
